@@ -317,3 +317,6 @@ def run(ctx) -> None:
     fullstack(ctx)
     splitter_actor(ctx)
     shared.argname_scope(ctx, ('forml.evaluation', 'forml.pipeline.ensemble', 'forml.pipeline.payload._split'), floor=2)
+    # one model / held-out branch per fold: a fold variable read after its loop is the last fold for everybody
+    mods = [m for m in ctx.prog.modules if m.startswith(('forml.evaluation', 'forml.pipeline.ensemble', 'forml.pipeline.payload'))]
+    ctx.floor('R-STALELOOP', shared.r_staleloop(ctx, ctx.prog.functions(mods)), 4)
